@@ -16,6 +16,11 @@ CHECKS = {
         text='Exploration. Generated packages with one re-exporter per object (package or sibling module; plain, renamed, star), negative controls listed in the defining module\'s own __all__, and consumer modules that reach the object from the defining module, the re-exporting module, a module alias or both are analysed in every reachable order (<=6/24, else sampled); the object and its members must be registered exactly at the exported name, and every consumer reference must lead to that one object.',
         note='Only the single-re-exporter shape of the statement is generated; the stale-import mechanism is credited only when the problem vanishes in a re-run of the same order with that mechanism alone repaired.',
         ref='4/C07'),
+    'C10': dict(
+        technique='strict XML parse (expat) of every page written by the real driver + canary/control structural differential: element/attribute skeleton of the hostile run must equal that of a control run in which only the five HTML-significant characters of each planted canary are replaced',
+        text='Exploration. A directed module plants unique canaries (tag/attribute/handler look-alikes, entity look-alikes, CDATA and comment delimiters, a script element) in 40+ positions where source text flows into pages (docstrings of every object kind, field bodies and field arguments, constants, defaults, string annotations, decorator arguments, base subscripts, __all__, deprecation messages) under all five docformats; generated projects carry canaries in docstrings; real packages are rendered too. Every page must be well-formed once characters illegal in XML are set aside, and no element or attribute may exist in the hostile output that the control output lacks.',
+        note='Pure presentational spans (class attribute only) and <wbr> are removed from both skeletons because their placement depends on the escaped length of words; in type fields the quote characters belong to the type mini-language, so canaries there carry none; href/src values of explicit link markup and reST raw/include are outside the statement.',
+        ref='4/C10'),
     'C11': dict(
         technique='offline closed-world link check over the complete output directory of the real driver (every href/src, anchor, all-documents url and search reference), joined with the live model and an independent page-layout reference',
         text='Exploration. Generated projects (inheritance, inherited docstrings with cross-references, re-exports, duplicates, privacy rules, nested classes, non-ASCII and root-named modules, several roots) under varying themes, sidebar depths, member orders and docformats, plus real packages, are rendered by the real driver; the crawler resolves ~170k links per quick run against the files written and the id/name anchors they contain, checks the search records, and checks that every visible module/class has its page and every visible member its anchor.',
